@@ -91,10 +91,11 @@ Definition lib_ext_ttl (ttl : N) (rcode : Z) : N :=
 (* ------------------------------------------------------------------ *)
 (** * 3. Compressibility *)
 
-(* wire.msgIsCompressible over the four section lengths *)
+(* wire.msgIsCompressible over the four section lengths.  Session 5: the function itself is translated
+   from the AST (Gen.C15.go_msgIsCompressible over T_Msg, sections as lists of the dns.RR sum type);
+   Proofs_bits.gen_msgIsCompressible ties this definition to it for every message *)
 Definition is_compressible (nq na nn ne : N) : bool :=
-  (compressible_q_over <? nq) || (compressible_an_over <? na) ||
-  (compressible_ns_over <? nn) || (compressible_ex_over <? ne).
+  (1 <? nq) || (0 <? na) || (0 <? nn) || (0 <? ne).
 (* msg.go isCompressible *)
 Definition lib_is_compressible (nq na nn ne : N) : bool :=
   (1 <? nq) || (0 <? na) || (0 <? nn) || (0 <? ne).
